@@ -74,7 +74,8 @@ def real_conf(c):
             "seed": c["Seed"]}
 
 
-def validate_traces(rep, traces, meta, tag):
+def validate_traces(rep, traces, meta, tag, flags=None):
+    flags = FLAGS if flags is None else flags
     vs = validate("SimBackend_Trace", "SimBackend_Trace.cfg", traces)
     st = validate.last_stats
     rep.states += st["distinct"]
@@ -89,7 +90,7 @@ def validate_traces(rep, traces, meta, tag):
         rep.count_actions(e["a"] for e in tr["ev"])
         for f in sorted(v.flags):
             counts[f] = counts.get(f, 0) + 1
-            if f in FLAGS:
+            if f in flags:
                 rep.violation({"check": "trace", "flag": f}, {"campaign": tag, "meta": meta[k], "conf": tr["conf"],
                                                                "events": tr["ev"], "all_flags": sorted(v.flags)})
     if traces:
